@@ -399,7 +399,10 @@ func TestWorker(t *testing.T) {
 			vs2 := oracle.Check(prop, sc2, res2)
 			var keep []oracle.Violation
 			for _, v := range vs {
-				again := v.Code == "race"
+				// what the trace itself shows is a fact of that execution even if the library does not behave the same
+				// way twice (a map ranged over, a cache that is warm the second time): only the verdicts that rest on
+				// counting the process's goroutines need to show again
+				again := v.Code == "race" || !(v.Code == "goroutine-leak" || v.Code == "goroutines-remain")
 				for _, w := range vs2 {
 					if w.Code == v.Code {
 						again = true
